@@ -84,7 +84,7 @@ def changed(args: Dict[str, Any], snap) -> List[str]:
 
 
 OPTION_VALUES = {
-    "padding": [0.5, "border", "reflection", 1], "mode": ["nearest", "linear", "bilinear"], "align_corners": [True, False], "normalize": [True, False],
+    "padding": [0.5, "border", "reflection", 1], "mode": ["nearest", "linear", "bilinear", "zscore", "center", "unit", "constant", "replicate"], "align_corners": [True, False], "normalize": [True, False],
     "binarize": [True, False], "inplace": [], "out": [], "reduction": ["none", "sum"], "eps": [1e-3], "sigma": [1.0], "spacing": [0.5], "stride": [2],
     "weight": [], "mask": [], "steps": [2], "scale": [0.5], "value": [0.5], "min": [0.25], "max": [1.5], "dim": [1], "dtype": [torch.float64],
     "kernel_size": [3], "squared": [True, False], "which": ["forward"], "sampling": ["nearest"], "bins": [8], "num_bins": [8], "num_samples": [16],
@@ -104,6 +104,11 @@ def option_sweep(name, fn, sig, base_args, D, allowed) -> List[dict]:
         for v in vals or []:
             if not (isinstance(v, type(p.default)) and v == p.default):
                 plans.append({p.name: v})
+    names = {p.name for p in opts}
+    if {"min", "max"} <= names:  # intensity ranges that make the rescaling an identity (an op that is a no-op may return / clamp the argument itself)
+        plans += [{"min": 0.0, "max": 1.0}, {"min": -0.5, "max": 0.5, **({"mode": "center"} if "mode" in names else {})}, {"min": 1.0, "max": 2.0}]
+        if "mode" in names:
+            plans += [{"mode": "zscore", "min": 1.0, "max": 2.0}, {"mode": "unit", "min": 0.0, "max": 1.0}]
     bools = [p for p in opts if isinstance(p.default, bool) and p.name not in ("inplace",)]
     for p, q in itertools.combinations(bools, 2):
         plans.append({p.name: not p.default, q.name: not q.default})
@@ -279,12 +284,12 @@ class Obj:
         return int(round(float(c[0]) / self.bstep()))
 
 
-def replay_history(ctx: Ctx, kind: str, hist: List[dict], inplace_grid: bool = False) -> None:
+def replay_history(ctx: Ctx, kind: str, hist: List[dict], inplace_grid: bool = False, deep_route: str = "deepcopy") -> None:
     ad = Obj(kind)
     objs = {"orig": ad.make()}
     ckind = "none"
     ver = {1: 0, 2: 0, 3: 0, 4: 0}
-    sig0 = dict(kind=kind, part="copies", inplace_grid=inplace_grid)
+    sig0 = dict(kind=kind, part="copies", inplace_grid=inplace_grid, deep_route=deep_route)
     for k, st in enumerate(hist):
         a = st["a"]
         try:
@@ -294,7 +299,13 @@ def replay_history(ctx: Ctx, kind: str, hist: List[dict], inplace_grid: bool = F
                 objs["copy"] = ad.with_B(objs["orig"], 0)
                 ckind = "accessor"
             elif a == "deepcopy":
-                objs["copy"] = copy.deepcopy(objs["orig"])
+                o_ = objs["orig"]
+                if deep_route == "torch.clone" and isinstance(o_, torch.Tensor):
+                    objs["copy"] = torch.clone(o_)
+                elif deep_route == "clone" and hasattr(o_, "clone") and not isinstance(o_, torch.nn.Module):
+                    objs["copy"] = o_.clone()
+                else:
+                    objs["copy"] = copy.deepcopy(o_)
                 ckind = "deep"
                 ver[3], ver[4] = ver[1], ver[2]
             elif a == "mutate":
@@ -349,6 +360,9 @@ def run(ctx: Ctx) -> None:
             replay_history(ctx, kind, h)
             if kind in ("Image", "FlowField", "ImageBatch", "FlowFields"):
                 replay_history(ctx, kind, h, inplace_grid=True)
+            if any(st["a"] == "deepcopy" for st in h) and kind in ("Grid", "Cube", "Image", "FlowField", "ImageBatch", "FlowFields"):
+                for route in ("clone", "torch.clone"):   # clone() / torch.clone() are deep copies too: data AND grids
+                    replay_history(ctx, kind, h, inplace_grid=kind not in ("Grid", "Cube"), deep_route=route)
             ctx.count(key=(kind, json.dumps(h)), nontrivial=any(s["a"] == "mutate" for s in h))
     ctx.notes["copy_histories"] = len(hists)
     ctx.sample(dict(kind="Grid", hist=hists[len(hists) // 2]))
